@@ -14,6 +14,7 @@
 From Coq Require Import List ZArith Bool Arith Permutation.
 From NT Require Import Sx Rose Surgery Machine WF PreserveSteps PreserveOps PreserveSort PreserveCopy PreserveMore PreserveRelabel PreserveKeepClones Invariant CaseMut CaseWF.
 From NT Require MiscMapper MiscRepr MiscRemoved MiscRemovedProofs.   (* part REMOVED, imported at the end of this file *)
+From NT Require MiscSelfCheck MiscSelfCheckProofs.   (* part SELFCHECK, imported at the end of this file *)
 From NTGen Require Generated.
 Import ListNotations.
 
@@ -470,3 +471,27 @@ Example C01_removed_ex :
   map (eval ex_heap 5 1) [AParent; AIsSystemRoot; AIsTop; ADepth; AGetTop; APath; AUp 1%Z; AUp 2%Z] =
   [QNone; QBool false; QBool true; QInt 1%Z; QNode 1; QText [47; 97]%Z; QNode 0; QErr E_VALUE].
 Proof. exact ex_removed. Qed.
+
+(* ==== PART SELFCHECK: the library's own sanity check Tree._self_check, written on the pointer-level state of Mut/Heap.v
+   (model theories/Mut/MiscSelfCheck.v, correspondence Cases/CaseMiscSelfCheck.v on observed – healthy and hand-corrupted –
+   trees, harness parts_misc.SELFCHECK).  [h_self_check h = true] = the method returns True.  Not expressible on [hstate]
+   and therefore outside: `node._node_id == id(node)` and `_children is None or len(_children) > 0`. ==== *)
+Import MiscSelfCheck MiscSelfCheckProofs.
+
+(* the invariant implies the library's own check: on every heap that represents a well-formed tree state it returns True *)
+Theorem C01_self_check_passes : forall h t, WF t -> Rep h t -> h_self_check h = true.
+Proof. exact self_check_passes. Qed.
+Print Assumptions C01_self_check_passes.
+
+(* hence after EVERY history of operations (every exit: success, refusal, failing callback), in every tree of the world *)
+Theorem C01_self_check_reachable : forall ops, Forall (fun h => h_self_check h = true) (htrees (h_run ops h_empty_world)).
+Proof. exact self_check_reachable. Qed.
+Print Assumptions C01_self_check_reachable.
+
+(* non-vacuity, and the check is not vacuous: a fresh tree with one node passes; with the registry entry dropped it fails *)
+Example C01_self_check_ex :
+  h_self_check (HS (fun n => if Nat.eqb n 1 then Some 0 else None) (fun n => if Nat.eqb n 0 then [1] else []) (fun _ => true)
+                   (fun _ => dummy_i) [1] [1] [(DInt 0, [1])] false None false) = true /\
+  h_self_check (HS (fun n => if Nat.eqb n 1 then Some 0 else None) (fun n => if Nat.eqb n 0 then [1] else []) (fun _ => true)
+                   (fun _ => dummy_i) [1] [] [(DInt 0, [1])] false None false) = false.
+Proof. vm_compute. split; reflexivity. Qed.
